@@ -2626,7 +2626,10 @@ def c13_allele_filters():
             out.append(struct('%s.%s' % (oid, fname), False, 'function not found', fn, undecided=True))
             continue
         ifs = [n for n in ast.walk(node) if isinstance(n, ast.If)]
-        for kind, want_names in (('snp', {'ref', 'alt'}), ('ancestral', {'outgroup_allele'})):
+        GTS = ['0/0', '0|1', '1/1', '1|0', './.', '.|.', '.', '0/.', './1', '.|0', '1|.']
+        DPS = ['0', '.', '7', '12', None]
+        kinds = [('snp', {'ref', 'alt'}), ('ancestral', {'outgroup_allele'})] + ([('called-genotype', {'gt', 'dp'})] if fname == 'make_data_dict_vcf' else [])
+        for kind, want_names in kinds:
             tests = [n.test for n in ifs if names(n.test) == want_names]
             o = '%s.%s.%s' % (oid, fname, kind)
             if not tests:
@@ -2636,13 +2639,17 @@ def c13_allele_filters():
                 bad = []
                 nev = 0
                 try:
-                    combos = [(r_, a_) for r_ in STR for a_ in STR] if kind == 'snp' else [(x, None) for x in STR]
+                    combos = [(r_, a_) for r_ in STR for a_ in STR] if kind == 'snp' else ([(g_, d_) for g_ in GTS for d_ in DPS] if kind == 'called-genotype' else [(x, None) for x in STR])
                     for r_, a_ in combos:
                         ex = Executor(policy=lambda fr: 'abstract')
                         env = Env(None, mod)
                         if kind == 'snp':
                             env.vars.update(ref=r_, alt=a_)
                             want = not (r_ in BASES and a_ in BASES)
+                        elif kind == 'called-genotype':
+                            # a genotype is a subsampling candidate iff both alleles are called ('.' anywhere = missing) and the depth is not 0 / '.'
+                            env.vars.update(gt=r_, dp=a_)
+                            want = ('.' not in r_) and a_ not in ('0', '.')
                         else:
                             env.vars.update(outgroup_allele=r_)
                             want = r_ not in BASES
@@ -2652,7 +2659,8 @@ def c13_allele_filters():
                             raise Unsupported('test not decided for %r' % ((r_, a_),))
                         if paths[0].value != want:
                             bad.append((r_, a_) if kind == 'snp' else r_)
-                    what = ('skipped iff ref or alt is not a single base A/C/G/T' if kind == 'snp' else 'ancestral allele dropped iff not a single base A/C/G/T')
+                    what = ('skipped iff ref or alt is not a single base A/C/G/T' if kind == 'snp' else
+                            'genotype kept for subsampling iff fully called and covered' if kind == 'called-genotype' else 'ancestral allele dropped iff not a single base A/C/G/T')
                     out.append(struct('%s.test%d' % (o, ti), not bad, '%s (%d combinations)' % (what, nev) if not bad else 'wrong decision for %s' % bad[:6], fn,
                                       finding_key='C13/allele-filter/%s' % fname))
                 except (Unsupported, PyRaise, KeyError) as e_:
